@@ -66,13 +66,14 @@ theorem mem_msgsOf_arrive (evs : List Ev) (m : InMsg) (h : Ev.arrive m ∈ evs) 
       | arrive m' => simp [msgsOf, this]
       | _ => simpa [msgsOf] using this
 
-theorem gate_evOK (cfg : Cfg) (evs : List Ev) : ∀ e ∈ evs, EvOK (gateObs cfg (· ∈ msgsOf evs)) (fun _ _ => True) (· ∈ msgsOf evs) e := by
+theorem gate_evOK (cfg : Cfg) (evs : List Ev) : ∀ e ∈ evs, EvOK (gateObs cfg (· ∈ msgsOf evs)) (fun _ _ => True) (· ∈ msgsOf evs) cfg e := by
   intro e he
   cases e with
   | incomingMsg o => intro x hx; subst hx; exact mem_msgsOf_incoming evs x he
   | arrive m => exact mem_msgsOf_arrive evs m he
   | send m => exact Or.inl (gate_resetOK _ _)
   | sessionTime a b => exact Or.inr (gate_resetOK _ _)
+  | resetTime now => exact Or.inl (gate_resetOK _ _)
   | _ => trivial
 
 theorem gate_all_histories (cfg : Cfg) (s0 t0 : Int) (evs : List Ev) :
